@@ -102,7 +102,13 @@ func run(c *rig.Ctx) {
 	newWorld := func() *world {
 		// the LCD debug option (a 256x256 debug picture) is a display matter, not a timing one
 		worlds++
-		m := rig.MustNew(rig.BlankROM(0, 0, 0), rig.Opts{DebugLCD: worlds%4 == 3})
+		// (the header's colour-model flag is no business of a DMG's LCD timing either)
+		img := rig.BlankROM(0, 0, 0)
+		if worlds%5 >= 3 {
+			img[0x143] = []byte{0x80, 0xc0}[worlds%5-3]
+			c.Count("worlds_with_cgb_header_flag", 1)
+		}
+		m := rig.MustNew(img, rig.Opts{DebugLCD: worlds%4 == 3})
 		if worlds%4 == 3 {
 			c.Count("worlds_with_debug_lcd", 1)
 		}
